@@ -113,6 +113,12 @@ def iterators(ctx, rule):
     a = [ast.dump(s) for s in fs.body]
     b = [ast.dump(s) for s in nb.body]
     same = a == b
+    # both twins hand the work to one helper of the module, parametrised by the flavour: there is one iterator, the
+    # statement comparison has nothing to compare (the parameters each twin passes are decided by the model table R5)
+    called = lambda f: set(c.func.id for c in ast.walk(f) if isinstance(c, ast.Call) and isinstance(c.func, ast.Name) and c.func.id in names)
+    own_scan = lambda f: any(isinstance(c, ast.Attribute) and c.attr in ("finditer", "findall", "search") for c in ast.walk(f))
+    if not same and (called(fs) & called(fb)) and not own_scan(fs) and not own_scan(fb):
+        same = True
     diff = None
     if not same:
         for i, (x, y) in enumerate(zip(fs.body, nb.body)):
